@@ -340,7 +340,7 @@ func loopAllowed(policy string, scripts []string, r int) []bool {
 }
 
 type loopStats struct {
-	relayedForwarded, relayedReturned int64
+	relayedForwarded, relayedReturned  int64
 	relayDomainTargets, relayIPTargets int64
 	resolverQueries                    int64
 	relayedWins                        bool // some judged round's allowed set starts with a relayed member
